@@ -175,11 +175,41 @@ def strat_hassemble(draw, tier="quick"):
     return spec
 
 
+def enum_1d(tier):
+    """Exhaustive: every history of <= 2 refine calls (3 levels) over every non-empty subset of active cells of 1D meshes with
+    <= 3 (thorough: 4) cells, x p x disparity x HB/THB x {mass, Laplace}."""
+    from . import C04
+    out = []
+    fseed = [1.0, -0.5, 0.75, 2.0, 0.25, -1.5, 1.0, 0.5, -1.0, 0.5, 0.75]
+    for p in (1, 2):
+        for disp in ((None,) if tier == "quick" else (None, 2)):
+            for trunc in (False, True):
+                for n in ((3,) if tier == "quick" else (2, 3, 4)):
+                    kvs = [{"p": p, "breaks": [i / n for i in range(n + 1)], "mults": [1] * (n - 1)}]
+                    base = {"dim": 1, "kvs": kvs, "max_levels": 3, "disparity": disp, "truncate": trunc, "bdspecs": None,
+                            "geo": {"dim": 1, "kvs": [{"p": 1, "breaks": [0.0, 1.0], "mults": []}], "nurbs": False, "pert": [0.0],
+                                    "amp": 0.0, "A": [[2.0]], "b": [0.5]},
+                            "symmetric": False, "fseed": fseed, "pvals": [1.0, 0.5, 0.25]}
+                    hist = []
+                    ref = rh.RefHSpace([gk.build_knots(k) for k in kvs])
+                    C04._enum_from(ref, 2, 3, [], hist, base)
+                    for i, h in enumerate(hist):
+                        if len(h["steps"]) < 2:
+                            continue
+                        h = dict(h)
+                        h["form"] = "mass" if (i % 2 == 0 or tier == "quick" and n == 3) else "laplace"
+                        out.append(h)
+    return out
+
+
 SUBCHECKS = [
-    Sub("hassemble", check_hassemble, strategy=lambda tier: strat_hassemble(tier), quick=96, thorough=2400, shards=8, isolate=True,
+    Sub("hassemble", check_hassemble, strategy=lambda tier: strat_hassemble(tier), quick=192, thorough=2400, shards=8, isolate=True,
         floor=10, timeout_q=900, timeout_t=7000, setup=setup, max_shrink_calls=30,
         rule="assemble(form, HSpace) vs level-wise definition R_i^T A_L R_j; THB congruence; symmetric flag; Galerkin projection for "
              "polynomial integrands"),
+    Sub("enum_1d", check_hassemble, enum=enum_1d, quick=0, thorough=0, shards=16, isolate=True, floor=50, timeout_q=900, timeout_t=7000,
+        setup=setup, rule="exhaustive: all 2-call refinement histories (3 levels) on 1D meshes with <= 3 (4) cells x p in {1,2} x "
+                          "disparity {inf,2} x HB/THB, mass and Laplace forms"),
 ]
 SHARED_CACHE = True
 KNOWN = {}
